@@ -9,10 +9,11 @@ Simple ==
   { Op("ping", "", FALSE, "none", "none"), Op("reset", "", FALSE, "none", "none"),
     Op("open", "ok", FALSE, "none", "none"), Op("open", "bad", FALSE, "none", "none"),
     Op("open", "mixed", FALSE, "none", "none"), Op("open", "empty", FALSE, "none", "none"),
+    Op("open", "longbatch", FALSE, "none", "none"), Op("delete", "huge", FALSE, "none", "none"),
     Op("delete", "ok", FALSE, "none", "none"), Op("delete", "bad", FALSE, "none", "none"),
     Op("symlink", "ok", FALSE, "none", "none"), Op("symlink", "bad", FALSE, "none", "none"),
     Op("symlink", "empty", FALSE, "none", "none") }
-Fails == {"noent", "noentabs", "noexec", "enoexec", "dir", "emptyargs"}
+Fails == {"noent", "noentabs", "noexec", "enoexec", "dir", "emptyargs", "hugearg"}
 \* every exec variant: what to run x sync mode x callback x cancellation
 ExecAll ==
   { Op("exec", v, sa, cb, c) :
@@ -39,7 +40,7 @@ Interesting ==
        { Op("exec", v, FALSE, "ok", "none") : v \in Fails } \cup { Op("exec", v, TRUE, "none", "none") : v \in Fails }
   \cup { Op("exec", "run", sa, "fail", "none") : sa \in BOOLEAN }
   \cup { Op("exec", v, sa, "ok", c) : v \in {"run", "runslow"}, sa \in BOOLEAN, c \in {"pre", "running", "race"} }
-  \cup { o \in Simple : o.v \in {"bad", "empty"} }
+  \cup { o \in Simple : o.v \in {"bad", "empty", "longbatch", "huge"} }
 Pairs == IF Level >= 2 THEN { H(<<a, b>>, "", "") : a \in Interesting, b \in Interesting } ELSE {}
 \* (c) the two select races, pinned with a gate on the host or a delay in init
 Races ==
